@@ -476,6 +476,40 @@ func (a *Analyzer) external0(fr *frame, site ssa.Instruction, name string, sig *
 			return one(&Slice{Base: nb, Off: Const(0), Len: s.Len.AddC(w)})
 		}
 	}
+	switch name {
+	case "(*sync.Pool).Get":
+		return one(&Unknown{ID: a.id(), Typ: sig.Results().At(0).Type(), Desc: "sync.Pool.Get", Pooled: true})
+	case "(*sync.Pool).Put":
+		if len(args) > 1 {
+			v := args[1]
+			if ifc, ok := v.(*Iface); ok {
+				v = ifc.Val
+			}
+			if p, ok := v.(*Ptr); ok && p.Obj != nil {
+				if a.pooledObj == nil {
+					a.pooledObj = map[int]bool{}
+				}
+				a.pooledObj[p.Obj.ID] = true
+				for _, b := range a.bufBytes[p.Obj.ID] {
+					a.markReused(&Slice{Base: b}, "storage of a buffer that is handed back to a sync.Pool at "+a.P.RelPos(site.Pos())+" (the next user of the pooled buffer overwrites it)")
+				}
+			}
+		}
+		return one(nil)
+	case "(*bytes.Buffer).Bytes":
+		if p, ok := args[0].(*Ptr); ok && p.Obj != nil {
+			nb := &Base{ID: a.id(), Desc: "Bytes(buffer)"}
+			if a.bufBytes == nil {
+				a.bufBytes = map[int][]*Base{}
+			}
+			a.bufBytes[p.Obj.ID] = append(a.bufBytes[p.Obj.ID], nb)
+			res := &Slice{Base: nb, Off: Const(0), Len: AtomLin(a.freshLen("len(Bytes(buffer))"))}
+			if a.pooledObj[p.Obj.ID] {
+				a.markReused(res, "storage of a buffer obtained from a sync.Pool (the next user of the pooled buffer overwrites it)")
+			}
+			return one(res)
+		}
+	}
 	base := name
 	switch base {
 	case "bytes.Index", "bytes.IndexByte", "bytes.IndexRune", "bytes.IndexAny", "bytes.LastIndex", "bytes.LastIndexByte",
@@ -502,6 +536,11 @@ func (a *Analyzer) external0(fr *frame, site ssa.Instruction, name string, sig *
 		st.AssumeGE(s.Len.Sub(AtomLin(n)))
 		st.AssumeGE(AtomLin(off).Sub(s.Off))
 		nb := &Base{ID: a.id(), Desc: shortName(base) + "(" + s.Base.Desc + ")", From: s, Op: "call:" + base, Alias: s.Base}
+		// the cut set, when it is a constant (a trim is the inverse of NUL padding only for the cut set "\x00")
+		if cs := argSlice(1); cs != nil && cs.Base.Str != nil {
+			c := *cs.Base.Str
+			nb.Cut = &c
+		}
 		return one(&Slice{Base: nb, Off: Const(0), Len: AtomLin(n), IsStr: s.IsStr})
 	case "bytes.Clone":
 		s := argSlice(0)
